@@ -274,7 +274,7 @@ func (c *Ctx) c03SameEntry(p *Prog) {
 			keys = append(keys, k)
 		}
 		sort.Strings(keys)
-		bad := map[string]string{}  // list description -> witness
+		bad := map[string]string{}   // list description -> witness
 		seenBase := map[string]int{} // list description -> entries checked
 		var posBad string
 		for _, k := range keys {
